@@ -501,6 +501,10 @@ func (g *gen) jsonObject(depth int) string {
 	var xs []string
 	for i := 0; i < n; i++ {
 		key := g.pick("name", "a", "count", "list", "service", "block", "b", "//", "x", "Teamserver", "Host", "Port", "ü", "k1", "a")
+		if depth > 0 && g.chance(0.2) {
+			// property names of object values are templates: evaluated when the value is
+			key = g.pick("${b}", "${a}", "${nul}", "${dn}", "${null}", "x${nul}", "${t}", "${u}", "${d}", "${o.z}", "${l}", "${sens}", "%{if t}k%{endif}", "${upper(b)}", "${nosuch}", "$${a}", "${")
+		}
 		xs = append(xs, g.jws()+`"`+key+`"`+g.jws()+":"+g.jws()+g.jsonValue(depth))
 	}
 	return "{" + strings.Join(xs, ",") + g.jws() + "}"
